@@ -6,31 +6,6 @@ From Verif Require Import Aexp BGate PyVal CastPrim Ast State GatesGen GateLib U
 Import ListNotations.
 Open Scope Z_scope.
 
-(* name -> (parameters, qubits, name of the inverse, inverse negates the parameters) *)
-Definition inv_basis : list (string * (nat * nat * string * bool)) :=
-  [("id", (0, 1, "id", false)); ("h", (0, 1, "h", false)); ("x", (0, 1, "x", false)); ("y", (0, 1, "y", false));
-   ("z", (0, 1, "z", false)); ("s", (0, 1, "sdg", false)); ("t", (0, 1, "tdg", false)); ("sdg", (0, 1, "s", false));
-   ("tdg", (0, 1, "t", false)); ("rx", (1, 1, "rx", true)); ("ry", (1, 1, "ry", true)); ("rz", (1, 1, "rz", true));
-   ("cx", (0, 2, "cx", false)); ("cz", (0, 2, "cz", false)); ("swap", (0, 2, "swap", false)); ("ccx", (0, 3, "ccx", false))]%nat%string.
-
-Lemma inv_basis_lowering name np k name' neg : assoc name inv_basis = Some (np, k, name', neg) ->
-  exists d np' f, lookup_inv bitref name = InvFound (Some (d, np', f)) k neg /\ (0 < k)%nat /\
-    forall (vs : list pyval) (bs : list bitref), List.length vs = np -> List.length bs = k ->
-      f (map GA (map AVar (seq 0 (List.length vs))) ++ map GQ bs) = Some [BG name' (map AVar (seq 0 (List.length vs))) bs].
-Proof.
-  unfold inv_basis. cbn [assoc]. intros H.
-  repeat match type of H with
-         | (if String.eqb ?n ?c then _ else _) = Some _ =>
-             destruct (String.eqb_spec n c) as [->|_];
-             [ inversion H; subst; clear H;
-               do 3 eexists; split; [vm_compute; reflexivity|split; [lia|]];
-               intros vs bs Hv Hb; len_destruct; reflexivity
-             | ]
-         end.
-  discriminate H.
-Qed.
-
-(* ---------- the modifiers ---------- *)
 (* an integer literal, possibly negated (the parser reads `pow(-2)` as a unary minus applied to 2) *)
 Definition pow_lit (e : expr) : option Z :=
   match e with
@@ -92,34 +67,74 @@ Proof.
     injection H as <-. cbn. now rewrite (IH rs eq_refl).
 Qed.
 
+Lemma DE_gates s s' : DE s s' -> gates s' = gates s.
+Proof.
+  intros D. pose proof (de_core _ _ D) as E.
+  transitivity (gates (nodepth s')); [destruct s'; reflexivity|]. rewrite E. destruct s; reflexivity.
+Qed.
+
+(* what one application of a library gate (or of its inverse) emits: computed from the operation tables exactly as the
+   visitor model does -- the table entry applied to the parameters and the qubits, its angle expressions evaluated.  Any
+   library gate, not only the basis gates: cnot gives cx, u3 its rz / rx sequence, ... *)
+Definition lower_app (name : string) (vs : list pyval) (bs : list bitref) (inv : bool) : option (list stmt) :=
+  let entry := if negb inv
+               then match lookup_op bitref name with Some (e, n) => Some (e, n, false) | None => None end
+               else match lookup_inv bitref name with InvFound e n i => Some (e, n, i) | _ => None end in
+  match entry with
+  | Some (Some (_, _, f), k, neg) =>
+      if Nat.eqb (List.length bs) k && negb (Nat.eqb k 0) then
+        match (if neg then negate_all vs else Some vs) with
+        | Some vs' =>
+            match f (map GA (map AVar (seq 0 (List.length vs'))) ++ map GQ bs) with
+            | Some bgs => match mapR (stmt_of_bgate vs') bgs with Ok stmts => Some stmts | Err _ => None end
+            | None => None
+            end
+        | None => None
+        end
+      else None
+  | _ => None
+  end.
+
 Section Mods.
 Variable check_only : bool.
 Variable visit_rec : stmt -> M (list stmt).
 Variable call_rec : string -> list expr -> M (pyval * list stmt).
 
-(* one application of the inverse of a basis gate *)
-Lemma basic_inverse_fix env s name args vs vs' bs np k name' neg :
-  Regs env s -> assoc name inv_basis = Some (np, k, name', neg) -> List.length vs = np -> List.length bs = k ->
-  cparams args = Some vs -> (if neg then negate_all vs = Some vs' else vs' = vs) ->
+Lemma basic_apply env s name args vs bs inv stmts :
+  Regs env s -> lower_app name vs bs inv = Some stmts -> cparams args = Some vs ->
   forallb (in_reg (e_q env)) bs = true -> distinctb [] bs = true ->
-  exists s1, visit_basic_gate check_only call_rec name args (map qarg_of bs) true s
-             = Ok ((if check_only then [] else [SGate [] name' (map ELit vs') (map qarg_of bs)]), s1) /\ DE s s1 /\
-             Dstep s s1 [map Qr bs].
+  exists s1, visit_basic_gate check_only call_rec name args (map qarg_of bs) inv s
+             = Ok ((if check_only then [] else stmts), s1) /\ DE s s1 /\ Dstep s s1 [map Qr bs].
 Proof.
-  intros R Hn Hv Hb Hnum Hneg Hin Hd.
-  destruct (inv_basis_lowering name np k name' neg Hn) as (d & np' & f & Hl & Hk & Hf).
-  assert (Hlen : List.length vs' = List.length vs) by (destruct neg; [now apply negate_all_length|now subst]).
-  unfold visit_basic_gate. cbn [negb]. rewrite Hl.
-  rewrite (bind_eq _ _ s (Some (d, np', f), k, neg) s eq_refl).
+  intros R Hl Hargs Hin Hd. unfold lower_app in Hl. unfold visit_basic_gate.
+  set (entry := if negb inv
+                then match lookup_op bitref name with Some (e, n) => Some (e, n, false) | None => None end
+                else match lookup_inv bitref name with InvFound e n i => Some (e, n, i) | _ => None end) in Hl.
+  destruct entry as [[[e k] neg]|] eqn:Ee; [|discriminate Hl].
+  destruct e as [[[d np'] f]|]; [|discriminate Hl].
+  destruct (Nat.eqb (List.length bs) k && negb (Nat.eqb k 0)) eqn:C; [|discriminate Hl].
+  apply andb_true_iff in C as [Hb Hk]. apply Nat.eqb_eq in Hb. apply negb_true_iff in Hk. apply Nat.eqb_neq in Hk.
+  destruct (if neg then negate_all vs else Some vs) as [vs'|] eqn:Eneg; [|discriminate Hl].
+  destruct (f (map GA (map AVar (seq 0 (List.length vs'))) ++ map GQ bs)) as [bgs|] eqn:Ef; [|discriminate Hl].
+  destruct (mapR (stmt_of_bgate vs') bgs) as [st|] eqn:Em; [|discriminate Hl]. injection Hl as <-.
+  assert (Hent : (if negb inv
+                  then match lookup_op bitref name with Some (e, n) => ret (e, n, false) | None => verr end
+                  else match lookup_inv bitref name with
+                       | InvFound e n inv0 => ret (e, n, inv0) | InvKeyError => ierr KKey | InvUnsupported => verr end) s
+                 = Ok ((Some (d, np', f), k, neg), s)).
+  { unfold entry in Ee. destruct (negb inv).
+    - destruct (lookup_op bitref name) as [[e0 n0]|]; [|discriminate Ee]. injection Ee as -> -> <-. reflexivity.
+    - destruct (lookup_inv bitref name) as [e0 n0 i0| |]; try discriminate Ee. injection Ee as -> -> ->. reflexivity. }
+  rewrite (bind_eq _ _ s (Some (d, np', f), k, neg) s Hent).
   assert (Hp : (match args with
                 | [] => ret []
                 | _ :: _ => ps <- get_op_parameters call_rec args;;
                             (if neg then mapMM (fun p => lift (py_binop OpMul (VInt (-1)) p)) ps else ret ps)
                 end) s = Ok (vs', s)).
   { destruct args as [|a0 args0].
-    - apply cparams_nil in Hnum. subst vs. destruct vs'; [|discriminate Hlen]. reflexivity.
-    - rewrite (bind_eq _ _ s vs s (cparams_eval call_rec (a0 :: args0) vs s Hnum)).
-      destruct neg; [now apply negate_all_mapMM|now subst]. }
+    - apply cparams_nil in Hargs. subst vs. destruct neg; [cbn in Eneg|]; injection Eneg as <-; reflexivity.
+    - rewrite (bind_eq _ _ s vs s (cparams_eval call_rec (a0 :: args0) vs s Hargs)).
+      destruct neg; [now apply negate_all_mapMM|injection Eneg as <-; reflexivity]. }
   rewrite (bind_eq _ _ s vs' s Hp).
   assert (Ht : unroll_targets call_rec (map qarg_of bs) k s = Ok ([bs], s)).
   { unfold unroll_targets. rewrite (bind_eq _ _ s s s eq_refl).
@@ -127,161 +142,81 @@ Proof.
     rewrite (bind_eq _ _ s bs s G). destruct k as [|k']; [lia|]. rewrite Hb, Nat.mod_same by lia.
     cbn [Nat.eqb guard]. rewrite (bind_eq _ _ s tt s eq_refl). rewrite chunks_single by (auto; lia). reflexivity. }
   rewrite (bind_eq _ _ s [bs] s Ht).
-  cbn [concatMM]. rewrite Hlen. rewrite (Hf vs bs Hv Hb). cbn [mapR stmt_of_bgate].
-  pose proof (interp_vars [] vs') as Hi. cbn [app List.length] in Hi. rewrite <- Hlen. rewrite Hi. cbn [bind lift].
-  rewrite (bind_eq _ _ s [SGate [] name' (map ELit vs') (map qarg_of bs)] s eq_refl).
+  cbn [concatMM]. rewrite Ef, Em.
+  rewrite (bind_eq _ _ s (st ++ []) s).
+  2:{ rewrite (bind_eq _ _ s st s eq_refl). rewrite (bind_eq _ _ s [] s eq_refl). reflexivity. }
   destruct (depth_two_pass_ok gate_upd bs s) as ([] & s1 & E1 & D1).
   { intros b Hbn. eapply HasQ_of; eauto. eapply forallb_forall in Hin; eauto. }
   unfold update_depth_for_gate. cbn [iterM]. unfold depth_gate_subset.
   rewrite (bind_eq _ _ s tt s1); [|rewrite (bind_eq _ _ s tt s1 E1); reflexivity].
-  exists s1. split; [reflexivity|]. split; [exact D1|]. apply Dstep_one. intros N.
-  apply (gate_subset_is_dstep bs s s1); [exact (proj1 (distinctb_NoDup bs [] Hd))|exact N|exact E1].
-Qed.
-End Mods.
-
-Section Mods2.
-Variable check_only : bool.
-Variable visit_rec : stmt -> M (list stmt).
-Variable call_rec : string -> list expr -> M (pyval * list stmt).
-
-Lemma basic_forward_fix env s name args vs bs np k :
-  Regs env s -> assoc name self_basis = Some (np, k) -> List.length vs = np -> List.length bs = k ->
-  cparams args = Some vs -> forallb (in_reg (e_q env)) bs = true -> distinctb [] bs = true ->
-  exists s1, visit_basic_gate check_only call_rec name args (map qarg_of bs) false s
-             = Ok ((if check_only then [] else [SGate [] name (map ELit vs) (map qarg_of bs)]), s1) /\ DE s s1 /\
-             Dstep s s1 [map Qr bs].
-Proof.
-  intros R Hn Hv Hb Hnum Hin Hd.
-  destruct (self_basis_lowering name np k Hn) as (d & np' & f & Hl & Hk & Hf).
-  unfold visit_basic_gate. cbn [negb]. rewrite Hl.
-  rewrite (bind_eq _ _ s (Some (d, np', f), k, false) s eq_refl).
-  assert (Hp : (match args with
-                | [] => ret []
-                | _ :: _ => ps <- get_op_parameters call_rec args;;
-                            (if false then mapMM (fun p => lift (py_binop OpMul (VInt (-1)) p)) ps else ret ps)
-                end) s = Ok (vs, s)).
-  { destruct args as [|a0 args0]; [apply cparams_nil in Hnum; subst vs; reflexivity|].
-    rewrite (bind_eq _ _ s vs s (cparams_eval call_rec (a0 :: args0) vs s Hnum)). reflexivity. }
-  rewrite (bind_eq _ _ s vs s Hp).
-  assert (Ht : unroll_targets call_rec (map qarg_of bs) k s = Ok ([bs], s)).
-  { unfold unroll_targets. rewrite (bind_eq _ _ s s s eq_refl).
-    pose proof (get_op_bits_literals call_rec env s true bs R Hin Hd) as G. cbn iota in G.
-    rewrite (bind_eq _ _ s bs s G). destruct k as [|k']; [lia|]. rewrite Hb, Nat.mod_same by lia.
-    cbn [Nat.eqb guard]. rewrite (bind_eq _ _ s tt s eq_refl). rewrite chunks_single by (auto; lia). reflexivity. }
-  rewrite (bind_eq _ _ s [bs] s Ht).
-  cbn [concatMM]. rewrite (Hf vs bs Hv Hb). cbn [mapR stmt_of_bgate].
-  pose proof (interp_vars [] vs) as Hi. cbn [app List.length] in Hi. rewrite Hi. cbn [bind lift].
-  rewrite (bind_eq _ _ s [SGate [] name (map ELit vs) (map qarg_of bs)] s eq_refl).
-  destruct (depth_two_pass_ok gate_upd bs s) as ([] & s1 & E1 & D1).
-  { intros b Hbn. eapply HasQ_of; eauto. eapply forallb_forall in Hin; eauto. }
-  unfold update_depth_for_gate. cbn [iterM]. unfold depth_gate_subset.
-  rewrite (bind_eq _ _ s tt s1); [|rewrite (bind_eq _ _ s tt s1 E1); reflexivity].
-  exists s1. split; [reflexivity|]. split; [exact D1|]. apply Dstep_one. intros N.
+  exists s1. split; [unfold emit, ret; rewrite app_nil_r; reflexivity|]. split; [exact D1|]. apply Dstep_one. intros N.
   apply (gate_subset_is_dstep bs s s1); [exact (proj1 (distinctb_NoDup bs [] Hd))|exact N|exact E1].
 Qed.
 
-(* the gate one application emits: the gate itself, or its inverse *)
-Definition applied (name : string) (vs : list pyval) (bs : list bitref) (inv : bool) : option stmt :=
-  if inv then
-    match assoc name inv_basis with
-    | Some (np, k, name', neg) =>
-        if Nat.eqb (List.length vs) np && Nat.eqb (List.length bs) k then
-          match (if neg then negate_all vs else Some vs) with
-          | Some vs' => Some (SGate [] name' (map ELit vs') (map qarg_of bs))
-          | None => None
-          end
-        else None
-    | None => None
-    end
-  else
-    match assoc name self_basis with
-    | Some (np, k) => if Nat.eqb (List.length vs) np && Nat.eqb (List.length bs) k
-                      then Some (SGate [] name (map ELit vs) (map qarg_of bs)) else None
-    | None => None
-    end.
-
-Lemma inv_basis_in_self name np k name' neg : assoc name inv_basis = Some (np, k, name', neg) -> assoc name self_basis = Some (np, k).
-Proof.
-  unfold inv_basis, self_basis. cbn [assoc]. intros H.
-  repeat match type of H with
-         | (if String.eqb ?n ?c then _ else _) = Some _ =>
-             destruct (String.eqb_spec n c) as [->|_]; [inversion H; subst; reflexivity|]
-         end.
-  discriminate H.
-Qed.
-
-Lemma one_application env s name args vs bs inv g :
-  Regs env s -> applied name vs bs inv = Some g -> cparams args = Some vs ->
+Lemma one_application env s name args vs bs inv stmts :
+  Regs env s -> smemk name (gates s) = false -> lower_app name vs bs inv = Some stmts -> cparams args = Some vs ->
   forallb (in_reg (e_q env)) bs = true -> distinctb [] bs = true ->
   exists s1, (s0 <- getst;;
               if smem name [] then visit_external_gate check_only visit_rec call_rec name args (map qarg_of bs) inv
               else if smemk name (gates s0) then visit_custom_gate check_only visit_rec call_rec name args (map qarg_of bs) inv
               else visit_basic_gate check_only call_rec name args (map qarg_of bs) inv) s
-             = Ok ((if check_only then [] else [g]), s1) /\ DE s s1 /\ Dstep s s1 [map Qr bs].
+             = Ok ((if check_only then [] else stmts), s1) /\ DE s s1 /\ Dstep s s1 [map Qr bs].
 Proof.
-  intros R Ha Hnum Hin Hd. rewrite (bind_eq _ _ s s s eq_refl). cbn [smem existsb].
-  unfold applied in Ha. destruct inv.
-  - destruct (assoc name inv_basis) as [[[[np k] name'] neg]|] eqn:En; [|discriminate Ha].
-    destruct (Nat.eqb (List.length vs) np && Nat.eqb (List.length bs) k) eqn:C; [|discriminate Ha].
-    apply andb_true_iff in C as [Hv Hb]. apply Nat.eqb_eq in Hv, Hb.
-    rewrite (R_gates _ _ R name np k (inv_basis_in_self _ _ _ _ _ En)).
-    destruct neg.
-    + destruct (negate_all vs) as [vs'|] eqn:Eg; [|discriminate Ha]. injection Ha as <-.
-      eapply basic_inverse_fix; eauto.
-    + injection Ha as <-. eapply basic_inverse_fix; eauto. reflexivity.
-  - destruct (assoc name self_basis) as [[np k]|] eqn:En; [|discriminate Ha].
-    destruct (Nat.eqb (List.length vs) np && Nat.eqb (List.length bs) k) eqn:C; [|discriminate Ha]. injection Ha as <-.
-    apply andb_true_iff in C as [Hv Hb]. apply Nat.eqb_eq in Hv, Hb.
-    rewrite (R_gates _ _ R name np k En). eapply basic_forward_fix; eauto.
+  intros R Hng Ha Hargs Hin Hd. rewrite (bind_eq _ _ s s s eq_refl). cbn [smem existsb]. rewrite Hng.
+  eapply basic_apply; eauto.
 Qed.
 
-Lemma repeated_applications env name args vs bs inv g n : forall s,
-  Regs env s -> applied name vs bs inv = Some g -> cparams args = Some vs ->
+Fixpoint copies {A} (n : nat) (l : list A) : list A := match n with O => [] | S n' => l ++ copies n' l end.
+
+Lemma repeated_applications env name args vs bs inv stmts n : forall s,
+  Regs env s -> smemk name (gates s) = false -> lower_app name vs bs inv = Some stmts -> cparams args = Some vs ->
   forallb (in_reg (e_q env)) bs = true -> distinctb [] bs = true ->
   exists s1, repeatM n (s0 <- getst;;
               if smem name [] then visit_external_gate check_only visit_rec call_rec name args (map qarg_of bs) inv
               else if smemk name (gates s0) then visit_custom_gate check_only visit_rec call_rec name args (map qarg_of bs) inv
               else visit_basic_gate check_only call_rec name args (map qarg_of bs) inv) s
-             = Ok ((if check_only then [] else repeat g n), s1) /\ DE s s1 /\ Dstep s s1 (repeat (map Qr bs) n).
+             = Ok ((if check_only then [] else copies n stmts), s1) /\ DE s s1 /\ Dstep s s1 (repeat (map Qr bs) n).
 Proof.
-  induction n as [|n IH]; intros s R Ha Hnum Hin Hd; cbn [repeatM repeat].
+  induction n as [|n IH]; intros s R Hng Ha Hargs Hin Hd; cbn [repeatM repeat copies].
   - exists s. split; [destruct check_only; reflexivity|]. split; [apply DE_refl|apply Dstep_same; reflexivity].
-  - destruct (one_application env s name args vs bs inv g R Ha Hnum Hin Hd) as (s1 & E1 & D1 & S1).
-    destruct (IH s1 (Regs_DE _ _ _ R D1) Ha Hnum Hin Hd) as (s2 & E2 & D2 & S2).
-    rewrite (bind_eq _ _ s (if check_only then [] else [g]) s1 E1).
-    rewrite (bind_eq _ _ s1 (if check_only then [] else repeat g n) s2 E2).
+  - destruct (one_application env s name args vs bs inv stmts R Hng Ha Hargs Hin Hd) as (s1 & E1 & D1 & S1).
+    assert (Hng1 : smemk name (gates s1) = false) by (now rewrite (DE_gates _ _ D1)).
+    destruct (IH s1 (Regs_DE _ _ _ R D1) Hng1 Ha Hargs Hin Hd) as (s2 & E2 & D2 & S2).
+    rewrite (bind_eq _ _ s (if check_only then [] else stmts) s1 E1).
+    rewrite (bind_eq _ _ s1 (if check_only then [] else copies n stmts) s2 E2).
     exists s2. split; [unfold ret; destruct check_only; reflexivity|]. split; [eapply DE_trans; eauto|].
     change (map Qr bs :: repeat (map Qr bs) n) with ([map Qr bs] ++ repeat (map Qr bs) n). eapply Dstep_trans; eauto.
 Qed.
 
 (* the modified gate statement *)
-Lemma modified_gate_fix env s mods name args vs bs p inv g :
-  Regs env s -> cmods mods 1 false = Some (p, inv) -> p < 10000 ->
-  applied name vs bs inv = Some g -> cparams args = Some vs ->
+Lemma modified_gate_fix env s mods name args vs bs p inv stmts :
+  Regs env s -> smemk name (gates s) = false -> cmods mods 1 false = Some (p, inv) -> p < 10000 ->
+  lower_app name vs bs inv = Some stmts -> cparams args = Some vs ->
   forallb (in_reg (e_q env)) bs = true -> distinctb [] bs = true ->
   exists s1, visit_generic_gate check_only [] visit_rec call_rec mods name args (map qarg_of bs) s
-             = Ok ((if check_only then [] else repeat g (Z.to_nat p)), s1) /\ DE s s1 /\ Dstep s s1 (repeat (map Qr bs) (Z.to_nat p)).
+             = Ok ((if check_only then [] else copies (Z.to_nat p) stmts), s1) /\ DE s s1 /\ Dstep s s1 (repeat (map Qr bs) (Z.to_nat p)).
 Proof.
-  intros R Hc Hp Ha Hnum Hin Hd. unfold visit_generic_gate.
+  intros R Hng Hc Hp Ha Hargs Hin Hd. unfold visit_generic_gate.
   rewrite (bind_eq _ _ s (VInt p, inv) s (collapse_mods_literal call_rec mods 1 false (p, inv) s Hc)).
   rewrite (bind_eq _ _ s s s eq_refl). rewrite (in_some_function_false env s R), andb_false_r.
   rewrite (bind_eq _ _ s (map qarg_of bs) s eq_refl). rewrite (bind_eq _ _ s p s eq_refl).
   assert (p <? 10000 = true) as -> by (apply Z.ltb_lt; lia). cbn [guard]. rewrite (bind_eq _ _ s tt s eq_refl).
-  destruct (repeated_applications env name args vs bs inv g (Z.to_nat p) s R Ha Hnum Hin Hd) as (s1 & E1 & D1 & S1).
-  rewrite (bind_eq _ _ s (if check_only then [] else repeat g (Z.to_nat p)) s1 E1).
+  destruct (repeated_applications env name args vs bs inv stmts (Z.to_nat p) s R Hng Ha Hargs Hin Hd) as (s1 & E1 & D1 & S1).
+  rewrite (bind_eq _ _ s (if check_only then [] else copies (Z.to_nat p) stmts) s1 E1).
   exists s1. split; [unfold emit, ret; destruct check_only; reflexivity|]. split; assumption.
 Qed.
-End Mods2.
+End Mods.
 
 (* ---------- the statement: expansion and events ---------- *)
-Definition mod_ok (env : renv) (stm : stmt) : option (list stmt * list (list rsrc)) :=
+Definition mod_ok (env : renv) (G : list (string * gatedef)) (stm : stmt) : option (list stmt * list (list rsrc)) :=
   match stm with
   | SGate mods name args qs =>
       match cmods mods 1 false, mapM lit_bit qs, cparams args with
       | Some (p, inv), Some bs, Some vs =>
-          if (p <? 10000) && forallb (in_reg (e_q env)) bs && distinctb [] bs then
-            match applied name vs bs inv with
-            | Some g => if op_ok env g then Some (repeat g (Z.to_nat p), repeat (map Qr bs) (Z.to_nat p)) else None
+          if negb (smemk name G) && (p <? 10000) && forallb (in_reg (e_q env)) bs && distinctb [] bs then
+            match lower_app name vs bs inv with
+            | Some stmts => if forallb (op_ok env) stmts
+                            then Some (copies (Z.to_nat p) stmts, repeat (map Qr bs) (Z.to_nat p)) else None
             | None => None
             end
           else None
@@ -290,25 +225,29 @@ Definition mod_ok (env : renv) (stm : stmt) : option (list stmt * list (list rsr
   | _ => None
   end.
 
-Lemma mod_fix check_only f env s stm out evs : Regs env s -> mod_ok env stm = Some (out, evs) ->
+Lemma mod_fix check_only f env G s stm out evs : Regs env s -> gates s = G -> mod_ok env G stm = Some (out, evs) ->
   exists s1, visit_stmt check_only [] (S f) stm s = Ok ((if check_only then [] else out), s1) /\ DE s s1 /\ Dstep s s1 evs.
 Proof.
-  intros R H. destruct stm; try discriminate H. cbn [mod_ok] in H.
+  intros R HG H. destruct stm; try discriminate H. cbn [mod_ok] in H.
   destruct (cmods mods 1 false) as [[p inv]|] eqn:Ec; [|discriminate H].
   destruct (mapM lit_bit qubits) as [bs|] eqn:Eb; [|discriminate H]. destruct (cparams args) as [vs|] eqn:Ev; [|discriminate H].
   match type of H with (if ?c then _ else _) = _ => destruct c eqn:C; [|discriminate H] end.
-  destruct (applied name vs bs inv) as [g|] eqn:Ea; [|discriminate H]. destruct (op_ok env g); [|discriminate H]. injection H as <- <-.
-  apply andb_true_iff in C as [C Hd]. apply andb_true_iff in C as [Hp Hin]. apply Z.ltb_lt in Hp.
-  apply mapM_lit_bit in Eb as ->.
-  cbn [visit_stmt visit_stmt_body]. eapply modified_gate_fix; eauto.
+  destruct (lower_app name vs bs inv) as [stmts|] eqn:Ea; [|discriminate H]. destruct (forallb (op_ok env) stmts); [|discriminate H].
+  injection H as <- <-.
+  apply andb_true_iff in C as [C Hd]. apply andb_true_iff in C as [C Hin]. apply andb_true_iff in C as [Hng Hp].
+  apply Z.ltb_lt in Hp. apply negb_true_iff in Hng. apply mapM_lit_bit in Eb as ->.
+  cbn [visit_stmt visit_stmt_body]. eapply modified_gate_fix; eauto. now rewrite HG.
 Qed.
 
-Lemma mod_ok_ops env stm out evs : mod_ok env stm = Some (out, evs) -> forallb (op_ok env) out = true.
+Lemma copies_forallb {A} (P : A -> bool) n l : forallb P l = true -> forallb P (copies n l) = true.
+Proof. intros H. induction n as [|n IH]; [reflexivity|]. cbn [copies]. now rewrite forallb_app, H, IH. Qed.
+
+Lemma mod_ok_ops env G stm out evs : mod_ok env G stm = Some (out, evs) -> forallb (op_ok env) out = true.
 Proof.
   intros H. destruct stm; try discriminate H. cbn [mod_ok] in H.
   destruct (cmods mods 1 false) as [[p inv]|]; [|discriminate H].
   destruct (mapM lit_bit qubits) as [bs|]; [|discriminate H]. destruct (cparams args) as [vs|]; [|discriminate H].
   match type of H with (if ?c then _ else _) = _ => destruct c; [|discriminate H] end.
-  destruct (applied name vs bs inv) as [g|]; [|discriminate H]. destruct (op_ok env g) eqn:Eo; [|discriminate H]. injection H as <- <-.
-  apply forallb_forall. intros x Hx. apply repeat_spec in Hx. now subst.
+  destruct (lower_app name vs bs inv) as [stmts|]; [|discriminate H]. destruct (forallb (op_ok env) stmts) eqn:Eo; [|discriminate H].
+  injection H as <- <-. now apply copies_forallb.
 Qed.
